@@ -363,6 +363,18 @@ VALUES = [("clean", "v", False), ("int", 7, False), ("lf", "a\nb", True), ("cr",
           ("crlf", "a\r\nX-Evil: y", True), ("trail", "v\n", True), ("lone-lf", "\n", True),
           ("lead-crlf", "\r\nX: y", True), ("obj-lf", StrObj(), True)]
 
+# the class "characters adjacent to the line break" (seed C05-3b: a CR/LF followed by a blank - an obsolete folded
+# continuation line - must be refused like any other): every line break form followed by, and preceded by, each of
+# space, TAB, VT, FF, NUL and ':'
+NEWLINES = [("lf", "\n"), ("cr", "\r"), ("crlf", "\r\n")]
+ADJACENT = [("sp", " "), ("tab", "\t"), ("vt", "\x0b"), ("ff", "\x0c"), ("nul", "\x00"), ("colon", ":")]
+ADJ_VALUES = [("%s+%s" % (nn, an), "a" + nl + adj + "b", True) for nn, nl in NEWLINES for an, adj in ADJACENT]
+ADJ_VALUES += [("%s+%s" % (an, nn), "a" + adj + nl + "b", True) for nn, nl in NEWLINES for an, adj in ADJACENT]
+ADJ_VALUES += [("fold-header", "a\n X: y", True), ("fold-only", "\n ", True), ("fold-tab-only", "\r\t", True),
+               ("fold-crlf-tab", "a\r\n\tb", True), ("fold-trailing", "a\n ", True), ("fold-leading", " \na", True),
+               ("fold-twice", "a\n \n b", True)]
+VALUES += ADJ_VALUES
+
 
 def _has_key(h, k):
     return any(kk.lower() == k.lower() for kk, _ in h)
@@ -703,6 +715,7 @@ FRONT_DOORS.update({
 })
 
 F_VALUES = ["v", "a\nb", "a\rb", "a\r\nSet-Cookie: x=y", "v\n", "\nv", "a\x0bb", "a b", "a\x85b"]
+F_VALUES += [v for _l, v, _b in ADJ_VALUES]
 F_BAD = [("\r" in v or "\n" in v) for v in F_VALUES]
 
 
